@@ -266,7 +266,7 @@ def run_shard(ctx):
             ctx.mon("deep-nesting")
         else:
             lines = seed_text.replace("\r\n", "\n").split("\n") if rng.random() < 0.7 else ["@sealed"]
-            stmt = rng.choice(GF.CORNER_STATEMENTS)
+            stmt = rng.choice(GF.CORNER_STATEMENTS) if rng.random() < 0.75 else GF.string_escape_statement(rng)
             lines.insert(rng.randrange(len(lines) + 1), stmt)
             text = "\n".join(lines)
             if rng.random() < 0.3:
